@@ -1,11 +1,11 @@
 ---- MODULE MC_Vol ----
 (* Bounded instance for C01: every file set from the pool, every order, several path spellings. *)
 EXTENDS Vol, Scen
-CONSTANTS MaxFiles
+CONSTANTS MaxFiles, Big      \* Big: member sizes around the 128 KiB copy chunk instead of the small residues
 VARIABLES done
 \* name pool built to hit the ordering corners: "a" "A" "B" "ab" "a_" "a.b" "Z9" "a-"
 Pool == << <<97>>, <<65>>, <<66>>, <<97,98>>, <<97,95>>, <<97,46,98>>, <<90,57>>, <<97,45>> >>
-Sizes == {0, 1, 2, 3, 4, 5}
+Sizes == IF Big THEN {131071, 131072, 131073, 262144} ELSE {0, 1, 2, 3, 4, 5}
 Dirs == << <<>>, <<46,47>>, <<100,47>>, <<68,47>> >>          \* "", "./", "d/", "D/"
 OutName == <<111,46,118,111,108>>                             \* "o.vol"
 ToUpper(s) == [i \in 1..Len(s) |-> IF s[i] >= 97 /\ s[i] <= 122 THEN s[i] - 32 ELSE s[i]]
